@@ -340,7 +340,8 @@ type viewRec struct {
 var universe = []string{"\x01\xff\x00", "\x01\xff\x01", "\x01\x00", "\x02"}
 
 type world struct {
-	flush bool // the views are behind a flushkv wrapper
+	prev  sync.Map // goroutine -> the batch handle of its previous Commit (cancelled later: `defer b.Cancel()` style)
+	flush bool     // the views are behind a flushkv wrapper
 	views []viewRec
 	clock atomic.Uint64
 	cb    atomic.Uint64
@@ -397,6 +398,7 @@ type call struct {
 	stop   int
 	writes []call // commit: set / del
 	yield  bool
+	g      int // 1 + index of the issuing goroutine (0: none): batch handles of earlier commits are kept per goroutine
 }
 
 func (w *world) keysOf(view int) []string {
@@ -418,7 +420,7 @@ func genPlan(rng *hx.Rng, w *world, g, n int, allowClose bool) []call {
 		view := rng.Intn(len(w.views))
 		ks := w.keysOf(view)
 		key := hx.Pick(rng, ks)
-		c := call{view: view, key: key, yield: rng.Chance(1, 4)}
+		c := call{view: view, key: key, yield: rng.Chance(1, 4), g: g + 1}
 		switch x := rng.Intn(100); {
 		case x < 24:
 			c.kind, c.val = "set", val()
@@ -588,9 +590,20 @@ func (w *world) exec(c *call, inCallback func()) []*hop {
 				_ = b.Delete([]byte(wr.key))
 			}
 		}
+		// a handle that was committed earlier is cancelled only now, while the new batch is already filled: a finished handle
+		// must not influence any other batch (its own, or another goroutine's)
+		if old, ok := w.prev.Load(c.g); ok && c.g != 0 {
+			old.(kvstore.BatchedMutations).Cancel()
+		}
 		inv := w.clock.Add(1)
 		err = b.Commit()
 		ret := w.clock.Add(1)
+		if c.g != 0 {
+			if c.yield {
+				b.Cancel() // the usual `defer b.Cancel()` right after the Commit
+			}
+			w.prev.Store(c.g, b)
+		}
 		var out []*hop
 		// the batch's effect per key is its LAST call for that key (C04: last operation per key wins), applied as one write
 		last := map[string]int{}
